@@ -284,3 +284,30 @@ V("C14", "follow-from-end-plus1", "fire", (SU, "starts_with(followed_by, tokens[
   "follow-up pattern matched one token late", "follow-slice")
 V("C14", "header-range-start-start", "fire", (SU, "TokenRange(pattern.start, pattern.end)", "TokenRange(pattern.start, pattern.end - 1)"),
   "header range loses its last token", "token-range")
+
+# ------------------------------------------------------------------ C08
+RW = "codelimit/common/report/ReportWriter.py"
+RR = "codelimit/common/report/ReportReader.py"
+V("C08", "file-key-unescaped", "fire", (RW, "    def _file_to_json(self, name: str, entry: SourceFileEntry):\n        json = \"\"\n        json += self._open(f'{_string(name)}: {{')",
+                                         "    def _file_to_json(self, name: str, entry: SourceFileEntry):\n        json = \"\"\n        json += self._open(f'\"{name}\": {{')"),
+  "pre-fix: a path containing a quote breaks the document", "_file_to_json")
+V("C08", "unit-name-unescaped", "fire", (RW, "f'{{\"unit_name\": {_string(measurement.unit_name)}, '", "f'{{\"unit_name\": \"{measurement.unit_name}\", '"),
+  "pre-fix: function name pasted between quotes", "_measurement_to_json")
+V("C08", "branch-bare", "fire", (RW, "f'\"branch\": {_string(self.report.repository.branch)}'", "f'\"branch\": {self.report.repository.branch}'"),
+  "string emitted bare", "_repository_to_json")
+V("C08", "folder-entry-raw", "fire", (RW, "return self._line(_string(entry.name))", "return self._line(f'\"{entry.name}\"')"), "pre-fix folder entry name", "_source_folder_entry_to_json")
+V("C08", "version-not-restored", "fire", (RR, "        report.version = d[\"version\"] if \"version\" in d else None\n", ""), "pre-fix: re-read report carries the running version", "from_json/version")
+V("C08", "version-or-default", "fire", (RR, "report.version = d[\"version\"] if \"version\" in d else None", "report.version = d.get(\"version\") or Report.VERSION"),
+  "falls back to the running version", "from_json/version")
+V("C08", "version-get-silent", "silent", (RR, "report.version = d[\"version\"] if \"version\" in d else None", "report.version = d.get(\"version\")"), "same restoration")
+V("C08", "uuid-not-restored", "fire", (RR, "        report.uuid = d[\"uuid\"]\n", ""), "identifier regenerated on read", "from_json/uuid")
+V("C08", "reader-key-renamed", "fire", (RR, "v[\"loc\"]", "v[\"lines_of_code\"]"), "reader asks for a key the writer does not emit there", "from_json/codebase/files/*/lines_of_code")
+V("C08", "writer-key-renamed", "fire", (RW, "f'\"checksum\": {_string(entry.checksum())}'", "f'\"md5\": {_string(entry.checksum())}'"),
+  "writer renames a key the reader needs", "checksum")
+V("C08", "compact-drops-profile", "fire", (RW, "    def _file_profile_to_json(self, entry: SourceFileEntry):\n        return self._line(f'\"profile\": {entry.profile()}')",
+                                           "    def _file_profile_to_json(self, entry: SourceFileEntry):\n        if not self.pretty_print:\n            return self._line('\"profile\": []')\n        return self._line(f'\"profile\": {entry.profile()}')"),
+  "compact form carries different content", "reads-pretty_print")
+V("C08", "compact-separator", "fire", (RW, "separator = \",\\n\" if self.pretty_print else \", \"", "separator = \",\\n\" if self.pretty_print else \" \""),
+  "compact form loses the commas", "_collection/layout-only")
+V("C08", "pretty-indent-4-silent", "silent", (RW, "self.level += 2", "self.level += 4"), "layout only")
+V("C08", "string-helper-renamed-silent", "silent", (RW, "_string", "_json_str", 15), "wrapper renamed")
